@@ -115,6 +115,7 @@ def extract(g, spec, lenient=False):
             out[path]['ctl'] = CT.ctl_fingerprint(f2, summ)
             out[path]['carried'] = CT.carried_locals(f2)
             out[path]['flow'] = CT.flow_fingerprint(f2, summ)
+            out[path]['order'] = CT.order_fingerprint(f2, summ)
             # closures are bodies of their own: their content belongs to the row of the function that contains them
             cl = {}
             stack_ = list(g.closures_of.get(path, []))
